@@ -63,13 +63,14 @@ class OWElement(MemoryElement):
         if mem.id == self.id:
             if addr == 0:
                 if self._parse_and_check_header(data[0:8]):
-                    if self._parse_and_check_elements(data[9:11]):
+                    (elem_ver, elem_len) = struct.unpack('BB', data[8:10])
+                    # Without elements everything (version, length, CRC) has already been read
+                    if elem_len == 0 and self._parse_and_check_elements(data[8:11]):
                         self.valid = True
                         self._update_finished_cb(self)
                         self._update_finished_cb = None
                     else:
-                        # We need to fetch the elements, find out the length
-                        (elem_ver, elem_len) = struct.unpack('BB', data[8:10])
+                        # We need to fetch the elements
                         self.mem_handler.read(self, 8, elem_len + 3)
                 else:
                     # Call the update if the CRC check of the header fails,
